@@ -26,8 +26,11 @@ import (
 	"strings"
 	"time"
 
+	"github.com/tonkeeper/tongo/boc"
 	"github.com/tonkeeper/tongo/liteclient"
 	"github.com/tonkeeper/tongo/tl"
+	"github.com/tonkeeper/tongo/tlb"
+	"github.com/tonkeeper/tongo/ton"
 	"github.com/tonkeeper/tongo/utils"
 
 	"verifharness/prng"
@@ -44,6 +47,9 @@ func init() {
 	execs["c10.sizeof"] = execC10Sizeof
 	execs["c10.camel"] = func(in sx.V) sx.V { return sx.Str(utils.ToCamelCase(string(in.Bytes))) }
 	execs["c10.enclen"] = func(in sx.V) sx.V { return sx.Bytes(tl.EncodeLength(in.I())) }
+	execs["c10.bmarshal"] = execC10BMarshal
+	execs["c10.bunmarshal"] = execC10BUnmarshal
+	execs["c10.hand"] = execC10Hand
 	gens["C10"] = genC10
 }
 
@@ -767,6 +773,8 @@ func (c *Ctx) c10ByteLengths() {
 		}
 		lens = append(lens, 1020, 1021, 1022, 1023, 1024, 1025, 1100)
 	}
+	// readN switches from make+ReadFull to a growing buffer above maxPrealloc = 4096; io.CopyN copies in 32 KiB chunks
+	lens = append(lens, 4092, 4093, 4094, 4095, 4096, 4097, 4098, 4099, 4100, 8191, 8192, 8193, 32767, 32768, 32769)
 	lens = append(lens, 65531, 65532, 65533, 65534, 65535, 65536, 65537, 65540)
 	if c.Thorough() {
 		lens = append(lens, 1<<18-1, 1<<18, 1<<18+1, 1<<18+2) // larger lists overflow the stack of the extracted model
@@ -777,6 +785,8 @@ func (c *Ctx) c10ByteLengths() {
 		switch {
 		case n >= 65530:
 			bucket = "around-64k"
+		case n >= 4090:
+			bucket = "around-4096"
 		case n >= 254:
 			bucket = "escape"
 		case n >= 250:
@@ -987,6 +997,8 @@ func genC10(c *Ctx) {
 		c.c10Emit("c10.sizeof", sx.A(n), "sizeof")
 	}
 	c.c10ByteLengths()
+	c.c10HandCodecs()
+	c.c10Vectors()
 	per := c.Scale(8, 60)
 	for _, n := range c10Names {
 		t := c10Types[n]
@@ -1108,4 +1120,466 @@ func c10SchemaIDs() [][]byte {
 		out = append(out, b)
 	}
 	return out
+}
+
+// ---------------------------------------------------------------- basic kinds and vectors of them
+
+// descriptor: 'u32 | 'u64 | 'bytes | 'string | 'bool | 'int256 | ('vec d) | 'TypeName
+func c10DescType(d sx.V) (reflect.Type, bool) {
+	c10Init()
+	if d.K == sx.KA {
+		switch d.Atom {
+		case "u32":
+			return reflect.TypeOf(uint32(0)), true
+		case "u64":
+			return reflect.TypeOf(uint64(0)), true
+		case "bytes":
+			return reflect.TypeOf([]byte(nil)), true
+		case "string":
+			return reflect.TypeOf(""), true
+		case "bool":
+			return reflect.TypeOf(false), true
+		case "int256":
+			return c10Int256, true
+		}
+		t, ok := c10Types[d.Atom]
+		return t, ok
+	}
+	if d.K == sx.KL && len(d.List) == 2 && d.List[0].IsA("vec") {
+		t, ok := c10DescType(d.List[1])
+		if !ok {
+			return nil, false
+		}
+		return reflect.SliceOf(t), true
+	}
+	return nil, false
+}
+
+func execC10BMarshal(in sx.V) sx.V {
+	if in.K != sx.KL || len(in.List) != 2 {
+		return sx.L(sx.A("harness-error"), sx.A("shape"))
+	}
+	t, ok := c10DescType(in.List[0])
+	if !ok {
+		return sx.L(sx.A("harness-error"), sx.A("desc"))
+	}
+	v := reflect.New(t).Elem()
+	if err := c10FromSx(v, in.List[1]); err != nil {
+		return sx.L(sx.A("harness-error"), sx.A("value"))
+	}
+	b, err := tl.Marshal(v.Interface())
+	if err != nil {
+		return sx.A("err")
+	}
+	return sx.Bytes(b)
+}
+
+func execC10BUnmarshal(in sx.V) sx.V {
+	if in.K != sx.KL || len(in.List) != 2 || in.List[1].K != sx.KBytes {
+		return sx.L(sx.A("harness-error"), sx.A("shape"))
+	}
+	t, ok := c10DescType(in.List[0])
+	if !ok {
+		return sx.L(sx.A("harness-error"), sx.A("desc"))
+	}
+	p := reflect.New(t)
+	r := bytes.NewReader(in.List[1].Bytes)
+	if err := tl.Unmarshal(r, p.Interface()); err != nil {
+		return sx.A("err")
+	}
+	return sx.L(c10ToSx(p.Elem()), sx.Nat(r.Len()))
+}
+
+// ---------------------------------------------------------------- hand-written codecs
+
+func c10Hash(b []byte) (h [32]byte, ok bool) {
+	if len(b) != 32 {
+		return h, false
+	}
+	copy(h[:], b)
+	return h, true
+}
+
+func execC10Hand(in sx.V) sx.V {
+	bad := sx.L(sx.A("harness-error"), sx.A("hand"))
+	if in.K != sx.KL || len(in.List) < 2 || in.List[0].K != sx.KA {
+		return bad
+	}
+	a := in.List[1:]
+	marshal := a[0].IsA("m")
+	switch in.List[0].Atom {
+	case "accountid":
+		if marshal {
+			if len(a) != 3 {
+				return bad
+			}
+			h, ok := c10Hash(a[2].Bytes)
+			if !ok {
+				return bad
+			}
+			b, err := tl.Marshal(ton.AccountID{Workchain: int32(uint32(a[1].U64())), Address: h})
+			return errOr(err, sx.Bytes(b))
+		}
+		var id ton.AccountID
+		r := bytes.NewReader(a[1].Bytes)
+		if err := tl.Unmarshal(r, &id); err != nil {
+			return sx.A("err")
+		}
+		return sx.L(sx.N(uint64(uint32(id.Workchain))), sx.Bytes(id.Address[:]), sx.Nat(r.Len()))
+	case "blockid":
+		if marshal {
+			if len(a) != 4 {
+				return bad
+			}
+			b, err := tl.Marshal(ton.BlockID{Workchain: int32(uint32(a[1].U64())), Shard: a[2].U64(), Seqno: uint32(a[3].U64())})
+			return errOr(err, sx.Bytes(b))
+		}
+		var id ton.BlockID
+		r := bytes.NewReader(a[1].Bytes)
+		if err := tl.Unmarshal(r, &id); err != nil {
+			return sx.A("err")
+		}
+		return sx.L(sx.N(uint64(uint32(id.Workchain))), sx.N(id.Shard), sx.N(uint64(id.Seqno)), sx.Nat(r.Len()))
+	case "blockidext":
+		if marshal {
+			if len(a) != 6 {
+				return bad
+			}
+			rh, ok1 := c10Hash(a[4].Bytes)
+			fh, ok2 := c10Hash(a[5].Bytes)
+			if !ok1 || !ok2 {
+				return bad
+			}
+			id := ton.BlockIDExt{BlockID: ton.BlockID{Workchain: int32(uint32(a[1].U64())), Shard: a[2].U64(), Seqno: uint32(a[3].U64())},
+				RootHash: ton.Bits256(rh), FileHash: ton.Bits256(fh)}
+			b, err := tl.Marshal(id)
+			return errOr(err, sx.Bytes(b))
+		}
+		var id ton.BlockIDExt
+		if err := id.UnmarshalTL(append([]byte{}, a[1].Bytes...)); err != nil {
+			return sx.A("err")
+		}
+		return sx.L(sx.N(uint64(uint32(id.Workchain))), sx.N(id.Shard), sx.N(uint64(id.Seqno)), sx.Bytes(id.RootHash[:]), sx.Bytes(id.FileHash[:]))
+	case "vmstack":
+		if len(a) != 2 {
+			return bad
+		}
+		frame := append(c10RefBytes(a[0].Bytes), a[1].Bytes...)
+		var s tlb.VmStack
+		r := bytes.NewReader(frame)
+		if err := s.UnmarshalTL(r); err != nil {
+			return sx.A("err")
+		}
+		return sx.Nat(r.Len())
+	}
+	return bad
+}
+
+var c10WC = []uint64{0, 1, 2, 0xff, 0x100, 0x01020304, 0x7fffffff, 0x80000000, 0xfffffffe, 0xffffffff, 0xff000000, 0x00ffffff}
+var c10Shard = []uint64{0x8000000000000000, 0, 1, 0x0102030405060708, 0xffffffffffffffff, 0x4000000000000000, 0xc000000000000000, 0x00000000ffffffff}
+var c10Seqno = []uint64{0, 1, 2, 0x01020304, 0xfffffffe, 0xffffffff, 0x80000000}
+
+func (c *Ctx) c10HandCodecs() {
+	n := c.Scale(40, 400)
+	pick := func(xs []uint64, mask uint64) uint64 {
+		if c.R.Chance(60) {
+			return xs[c.R.Intn(len(xs))]
+		}
+		return c.R.U64() & mask
+	}
+	for i := 0; i < n; i++ {
+		wc := pick(c10WC, 0xffffffff)
+		if i < len(c10WC) {
+			wc = c10WC[i]
+		}
+		sh := pick(c10Shard, ^uint64(0))
+		sq := pick(c10Seqno, 0xffffffff)
+		rh, _ := c10Hash(c.R.Bytes(32))
+		fh, _ := c10Hash(c.R.Bytes(32))
+		junk := c.R.Bytes(c.R.Intn(6))
+		wcClass := "wc-other"
+		switch wc {
+		case 0, 0xffffffff:
+			wcClass = "wc-0/-1"
+		}
+		// ton.AccountID  <->  liteServer.accountId
+		aid := ton.AccountID{Workchain: int32(uint32(wc)), Address: rh}
+		in := sx.L(sx.A("accountid"), sx.A("m"), sx.N(wc), sx.Bytes(rh[:]))
+		out := c.c10Emit("c10.hand", in, "hand|accountid|marshal|"+wcClass)
+		gen, err := tl.Marshal(liteclient.AccountID(aid))
+		if out.K != sx.KBytes || err != nil || !bytes.Equal(out.Bytes, gen) {
+			c.Fail("c10.hand", in, "c10-hand-accountid", "ton.AccountID.MarshalTL differs from liteclient.LiteServerAccountIdC.MarshalTL of the same account")
+		}
+		uin := sx.L(sx.A("accountid"), sx.A("u"), sx.Bytes(append(append([]byte{}, gen...), junk...)))
+		c.c10Emit("c10.hand", uin, "hand|accountid|unmarshal|"+wcClass)
+		var back ton.AccountID
+		rd := bytes.NewReader(append(append([]byte{}, gen...), junk...))
+		if err := tl.Unmarshal(rd, &back); err != nil || back != aid || rd.Len() != len(junk) {
+			c.Fail("c10.hand", uin, "c10-hand-accountid", "ton.AccountID.UnmarshalTL does not read back what LiteServerAccountIdC.MarshalTL wrote")
+		}
+		// ton.BlockID  <->  tonNode.blockId (reflection walk)
+		bin := sx.L(sx.A("blockid"), sx.A("m"), sx.N(wc), sx.N(sh), sx.N(sq))
+		bout := c.c10Emit("c10.hand", bin, "hand|blockid|marshal|"+wcClass)
+		gb, err := tl.Marshal(liteclient.TonNodeBlockIdC{Workchain: uint32(wc), Shard: sh, Seqno: uint32(sq)})
+		if bout.K != sx.KBytes || err != nil || !bytes.Equal(bout.Bytes, gb) {
+			c.Fail("c10.hand", bin, "c10-hand-blockid", "tl.Marshal(ton.BlockID) differs from liteclient.TonNodeBlockIdC.MarshalTL")
+		}
+		c.c10Emit("c10.hand", sx.L(sx.A("blockid"), sx.A("u"), sx.Bytes(append(append([]byte{}, gb...), junk...))), "hand|blockid|unmarshal|"+wcClass)
+		// ton.BlockIDExt  <->  tonNode.blockIdExt
+		bid := ton.BlockIDExt{BlockID: ton.BlockID{Workchain: int32(uint32(wc)), Shard: sh, Seqno: uint32(sq)}, RootHash: ton.Bits256(rh), FileHash: ton.Bits256(fh)}
+		ein := sx.L(sx.A("blockidext"), sx.A("m"), sx.N(wc), sx.N(sh), sx.N(sq), sx.Bytes(rh[:]), sx.Bytes(fh[:]))
+		eout := c.c10Emit("c10.hand", ein, "hand|blockidext|marshal|"+wcClass)
+		ge, err := tl.Marshal(liteclient.BlockIDExt(bid))
+		if eout.K != sx.KBytes || err != nil || !bytes.Equal(eout.Bytes, ge) {
+			c.Fail("c10.hand", ein, "c10-hand-blockidext", "ton.BlockIDExt.MarshalTL differs from liteclient.TonNodeBlockIdExtC.MarshalTL of the same id")
+		}
+		euin := sx.L(sx.A("blockidext"), sx.A("u"), sx.Bytes(ge))
+		c.c10Emit("c10.hand", euin, "hand|blockidext|unmarshal|"+wcClass)
+		var eb ton.BlockIDExt
+		var gc liteclient.TonNodeBlockIdExtC
+		if err := eb.UnmarshalTL(append([]byte{}, ge...)); err != nil || eb != bid ||
+			tl.Unmarshal(bytes.NewReader(ge), &gc) != nil || gc.ToBlockIdExt() != bid {
+			c.Fail("c10.hand", euin, "c10-hand-blockidext", "ton.BlockIDExt.UnmarshalTL / TonNodeBlockIdExtC.ToBlockIdExt do not read back the id")
+		}
+		if i%8 == 0 {
+			c.c10Emit("c10.hand", sx.L(sx.A("blockidext"), sx.A("u"), sx.Bytes(ge[:len(ge)-1-c.R.Intn(4)])), "hand|blockidext|unmarshal|short")
+			c.c10Emit("c10.hand", sx.L(sx.A("blockidext"), sx.A("u"), sx.Bytes(append(append([]byte{}, ge...), 0))), "hand|blockidext|unmarshal|long")
+			c.c10Emit("c10.hand", sx.L(sx.A("accountid"), sx.A("u"), sx.Bytes(gen[:c.R.Intn(len(gen))])), "hand|accountid|unmarshal|short")
+		}
+	}
+	// tlb.VmStack: TL framing of the BOC
+	for i := 0; i < c.Scale(20, 120); i++ {
+		var st tlb.VmStack
+		for j := c.R.Intn(5); j >= 0; j-- {
+			switch c.R.Intn(3) {
+			case 0:
+				st = append(st, tlb.VmStackValue{SumType: "VmStkTinyInt", VmStkTinyInt: int64(c.R.U64())})
+			case 1:
+				st = append(st, tlb.VmStackValue{SumType: "VmStkNull"})
+			default:
+				cell := boc.NewCell()
+				_ = cell.WriteBytes(c.R.Bytes(c.R.Pick([]int{0, 1, 30, 100, 127})))
+				st = append(st, tlb.VmStackValue{SumType: "VmStkCell", VmStkCell: tlb.Ref[boc.Cell]{Value: *cell}})
+			}
+		}
+		cell := boc.NewCell()
+		if err := tlb.Marshal(cell, st); err != nil {
+			continue
+		}
+		raw, err := cell.ToBocCustom(false, false, false, 0)
+		if err != nil {
+			continue
+		}
+		in := sx.L(sx.A("vmstack"), sx.Bytes(raw), sx.Bytes(c.R.Bytes(c.R.Intn(5))))
+		bucket := "short"
+		if len(raw) >= 254 {
+			bucket = "escape"
+		}
+		c.c10Emit("c10.hand", in, "hand|vmstack|"+bucket)
+		c.c10Emit("c10.bmarshal", sx.L(sx.A("bytes"), sx.Bytes(raw)), "hand|vmstack-frame|"+bucket)
+		direct, err := st.MarshalTL()
+		if err != nil || !bytes.Equal(direct, c10RefBytes(raw)) {
+			c.Fail("c10.hand", in, "c10-hand-vmstack", "VmStack.MarshalTL is not the TL byte string of the stack's BOC")
+		}
+	}
+}
+
+// ---------------------------------------------------------------- vectors across the internal constants
+
+func c10Vec(d sx.V) sx.V { return sx.L(sx.A("vec"), d) }
+
+// one vector value through both directions, with the implementation-side oracle
+func (c *Ctx) c10VectorCase(desc sx.V, v reflect.Value, class string) {
+	in := sx.L(desc, c10ToSx(v))
+	out := c.c10Emit("c10.bmarshal", in, class)
+	if out.K != sx.KBytes {
+		c.Fail("c10.bmarshal", sx.L(desc, sx.Nat(v.Len())), "c10-vector", "tl.Marshal of a vector failed")
+		return
+	}
+	n := v.Len()
+	if len(out.Bytes) < 4 || binary.LittleEndian.Uint32(out.Bytes[:4]) != uint32(n) {
+		c.Fail("c10.bmarshal", sx.L(desc, sx.Nat(n)), "c10-vector", "the encoding does not start with the 32-bit count")
+	}
+	junk := c.R.Bytes(c.R.Intn(5))
+	ub := append(append([]byte{}, out.Bytes...), junk...)
+	c.c10Emit("c10.bunmarshal", sx.L(desc, sx.Bytes(ub)), class)
+	p := reflect.New(v.Type())
+	rd := bytes.NewReader(ub)
+	mark := sx.L(desc, sx.Nat(n))
+	if err := tl.Unmarshal(rd, p.Interface()); err != nil {
+		c.Fail("c10.bunmarshal", mark, "c10-vector", fmt.Sprintf("a vector announcing %d items is rejected", n))
+		return
+	}
+	if p.Elem().Len() != n {
+		c.Fail("c10.bunmarshal", mark, "c10-vector", fmt.Sprintf("a vector announcing %d items decodes to %d items", n, p.Elem().Len()))
+		return
+	}
+	if rd.Len() != len(junk) {
+		c.Fail("c10.bunmarshal", mark, "c10-vector", fmt.Sprintf("decoding a vector of %d items leaves %d bytes instead of %d", n, rd.Len(), len(junk)))
+	}
+	if re, err := tl.Marshal(p.Elem().Interface()); err != nil || !bytes.Equal(re, out.Bytes) {
+		c.Fail("c10.bunmarshal", mark, "c10-vector", fmt.Sprintf("re-encoding the decoded vector of %d items does not give the input back", n))
+	}
+}
+
+func c10LenBucket(n int) string {
+	switch {
+	case n < 4095:
+		return "small"
+	case n <= 4097:
+		return "4096"
+	case n <= 8193:
+		return "8192"
+	}
+	return "65536"
+}
+
+func (c *Ctx) c10Vectors() {
+	c10Init()
+	around := []int{4095, 4096, 4097}
+	mid := []int{8191, 8192, 8193}
+	high := []int{65535, 65536, 65537}
+	lens := append(append([]int{0, 1, 2, 255, 256}, around...), mid...)
+	u32 := func(n int) reflect.Value {
+		s := make([]uint32, n)
+		for i := range s {
+			s[i] = uint32(c.R.U64())
+		}
+		return reflect.ValueOf(s)
+	}
+	u64 := func(n int) reflect.Value {
+		s := make([]uint64, n)
+		for i := range s {
+			s[i] = c.R.U64()
+		}
+		return reflect.ValueOf(s)
+	}
+	for _, n := range append(append([]int{}, lens...), high...) {
+		if n > 8193 && !c.Thorough() && n != 65537 {
+			continue
+		}
+		c.c10VectorCase(c10Vec(sx.A("u32")), u32(n), "vector|u32|"+c10LenBucket(n))
+	}
+	for _, n := range append(append([]int{}, lens...), high...) {
+		if n > 4097 && !c.Thorough() && n != 8193 {
+			continue
+		}
+		c.c10VectorCase(c10Vec(sx.A("u64")), u64(n), "vector|u64|"+c10LenBucket(n))
+	}
+	// vector of bytes, vector of int256
+	for _, n := range append([]int{0, 3}, append(around, 8193)...) {
+		if n > 4097 && !c.Thorough() {
+			continue
+		}
+		bs := make([][]byte, n)
+		for i := range bs {
+			bs[i] = c.R.Bytes(c.R.Intn(6))
+		}
+		if n > 0 {
+			bs[n-1] = c.R.Bytes(254)
+		}
+		c.c10VectorCase(c10Vec(sx.A("bytes")), reflect.ValueOf(bs), "vector|bytes|"+c10LenBucket(n))
+		hs := make([]tl.Int256, n)
+		for i := range hs {
+			copy(hs[i][:], c.R.Bytes(32))
+		}
+		c.c10VectorCase(c10Vec(sx.A("int256")), reflect.ValueOf(hs), "vector|int256|"+c10LenBucket(n))
+	}
+	// nested vectors: long outside, long inside
+	for _, n := range around {
+		outer := make([][]uint32, n)
+		for i := range outer {
+			outer[i] = make([]uint32, c.R.Intn(3))
+			for j := range outer[i] {
+				outer[i][j] = uint32(c.R.U64())
+			}
+		}
+		c.c10VectorCase(c10Vec(c10Vec(sx.A("u32"))), reflect.ValueOf(outer), "vector|nested-outer|"+c10LenBucket(n))
+		inner := [][]uint32{u32(2).Interface().([]uint32), u32(n).Interface().([]uint32), {}}
+		c.c10VectorCase(c10Vec(c10Vec(sx.A("u32"))), reflect.ValueOf(inner), "vector|nested-inner|"+c10LenBucket(n))
+	}
+	// vector of a small struct: liteServer.transactionId with its optional fields
+	for _, n := range append(append([]int{}, around...), 8193) {
+		if n > 4097 && !c.Thorough() {
+			continue
+		}
+		ids := make([]liteclient.LiteServerTransactionIdC, n)
+		for i := range ids {
+			if c.R.Chance(20) {
+				lt := c.R.U64()
+				ids[i] = liteclient.LiteServerTransactionIdC{Mode: 2, Lt: &lt}
+			} else {
+				ids[i] = liteclient.LiteServerTransactionIdC{Mode: uint32(c.R.Intn(4)) << 3}
+			}
+		}
+		c.c10VectorCase(c10Vec(sx.A("LiteServerTransactionIdC")), reflect.ValueOf(ids), "vector|struct|"+c10LenBucket(n))
+	}
+	// the same lengths inside real binding types, through the generated methods
+	holder := func(t reflect.Type, fill func(v reflect.Value, n int), ns []int) {
+		for _, n := range ns {
+			v := reflect.New(t).Elem()
+			g := &c10Gen{r: c.R, big: 5, maxV: 2}
+			g.fill(v, 0)
+			fill(v, n)
+			cv, b, ok := c10Canon(v)
+			in := c10Case(t.Name(), c10ToSx(cv))
+			if !ok {
+				c.Fail("c10.cmarshal", sx.L(sx.A(t.Name()), sx.Nat(n)), "c10-vector", fmt.Sprintf("%s with a vector of %d items does not survive MarshalTL then UnmarshalTL", t.Name(), n))
+				continue
+			}
+			class := "vector|" + t.Name() + "|" + c10LenBucket(n)
+			c.c10Emit("c10.cmarshal", in, class)
+			c.c10Emit("c10.cunmarshal", c10Case(t.Name(), sx.Bytes(b)), class)
+			if !reflect.DeepEqual(cv.Interface(), v.Interface()) {
+				c.Fail("c10.cunmarshal", sx.L(sx.A(t.Name()), sx.Nat(n)), "c10-vector", fmt.Sprintf("%s with a vector of %d items decodes to a different value", t.Name(), n))
+			}
+		}
+	}
+	quickOr := func(q, t []int) []int {
+		if c.Thorough() {
+			return t
+		}
+		return q
+	}
+	holder(reflect.TypeOf(liteclient.LiteServerGetConfigParamsRequest{}), func(v reflect.Value, n int) {
+		v.FieldByName("ParamList").Set(u32(n))
+	}, quickOr([]int{4096, 4097}, []int{4095, 4096, 4097, 8193, 65537}))
+	holder(reflect.TypeOf(liteclient.LiteServerGetLibrariesRequest{}), func(v reflect.Value, n int) {
+		hs := make([]tl.Int256, n)
+		for i := range hs {
+			copy(hs[i][:], c.R.Bytes(32))
+		}
+		v.FieldByName("LibraryList").Set(reflect.ValueOf(hs))
+	}, quickOr([]int{4097}, []int{4096, 4097, 8193}))
+	holder(reflect.TypeOf(liteclient.LiteServerBlockTransactionsC{}), func(v reflect.Value, n int) {
+		ids := make([]liteclient.LiteServerTransactionIdC, n)
+		for i := range ids {
+			ids[i].Mode = uint32(i) << 3
+		}
+		v.FieldByName("Ids").Set(reflect.ValueOf(ids))
+	}, quickOr([]int{4097}, []int{4096, 4097, 8193}))
+	holder(reflect.TypeOf(liteclient.LiteServerTransactionListC{}), func(v reflect.Value, n int) {
+		ids := make([]liteclient.TonNodeBlockIdExtC, n)
+		for i := range ids {
+			ids[i].Seqno = uint32(i)
+			ids[i].Shard = c.R.U64()
+		}
+		v.FieldByName("Ids").Set(reflect.ValueOf(ids))
+	}, quickOr([]int{4097}, []int{4096, 4097}))
+	// ... through the request decoder and through a request method's answer
+	{
+		req := liteclient.LiteServerGetConfigParamsRequest{Mode: 1, ParamList: u32(4097).Interface().([]uint32)}
+		body, _ := tl.Marshal(req)
+		if m, ok := c10FindMethod("LiteServerGetConfigParams"); ok {
+			msg := append(append([]byte{}, c10RequestID(m)...), body...)
+			c.c10Emit("c10.reqdecode", sx.Bytes(msg), "vector|reqdecode|4096")
+		}
+		if m, ok := c10FindMethod("LiteServerListBlockTransactions"); ok {
+			res := liteclient.LiteServerBlockTransactionsC{ReqCount: 4097, Ids: make([]liteclient.LiteServerTransactionIdC, 4097), Proof: []byte{}}
+			rb, _ := tl.Marshal(res)
+			rq := reflect.New(m.req).Elem()
+			in := sx.L(sx.A(m.name), c10ToSx(rq), sx.Bytes(append(append([]byte{}, c10ResultID(m)...), rb...)))
+			c.c10Emit("c10.request", in, "vector|response|4096")
+		}
+	}
 }
